@@ -65,23 +65,28 @@ type Obligation struct {
 	Output  string
 	Known   string // known-finding id if matched
 	smtText string
+	smtNoQ  string
 }
 
 type State struct {
 	mem       map[*Cell]Val
 	pc        []Term
+	extWrites int    // stores to non-local cells (used to detect effect-free calls)
+	isFact    []bool // parallel to pc: unconditional fact (true) vs path/branch condition (false)
 	panicking bool
 	recovered bool
 	written   map[*Cell]bool
 }
 
 func (s *State) Clone() *State {
-	n := &State{mem: make(map[*Cell]Val, len(s.mem)), panicking: s.panicking, recovered: s.recovered}
+	n := &State{mem: make(map[*Cell]Val, len(s.mem)), panicking: s.panicking, recovered: s.recovered, extWrites: s.extWrites}
 	for k, v := range s.mem {
 		n.mem[k] = v
 	}
 	n.pc = make([]Term, len(s.pc), len(s.pc)+8)
 	copy(n.pc, s.pc)
+	n.isFact = make([]bool, len(s.isFact), len(s.isFact)+8)
+	copy(n.isFact, s.isFact)
 	if s.written != nil {
 		n.written = make(map[*Cell]bool, len(s.written))
 		for k := range s.written {
@@ -91,11 +96,43 @@ func (s *State) Clone() *State {
 	return n
 }
 
+// Assume adds a path condition (branch guard). Fact adds an unconditional fact (assumed
+// contract postcondition, invariant after havoc, representation range): the distinction
+// matters only when paths are merged by evalPure.
 func (s *State) Assume(t Term) {
 	if t.IsTrue() {
 		return
 	}
+	for len(s.isFact) < len(s.pc) {
+		s.isFact = append(s.isFact, false)
+	}
 	s.pc = append(s.pc, t)
+	s.isFact = append(s.isFact, false)
+}
+
+func (s *State) Fact(t Term) {
+	if t.IsTrue() {
+		return
+	}
+	for len(s.isFact) < len(s.pc) {
+		s.isFact = append(s.isFact, false)
+	}
+	s.pc = append(s.pc, t)
+	s.isFact = append(s.isFact, true)
+}
+
+// decided reports whether c (or its negation) is literally among the path conditions.
+func (s *State) decided(c Term) (bool, bool) {
+	n := Not(c)
+	for i := len(s.pc) - 1; i >= 0; i-- {
+		if s.pc[i].E == c.E {
+			return true, true
+		}
+		if s.pc[i].E == n.E {
+			return true, false
+		}
+	}
+	return false, false
 }
 
 func (s *State) Infeasible() bool {
@@ -129,6 +166,8 @@ type VC struct {
 	usedAssumptions map[string]bool
 	maxPaths int
 	noDefine int
+	entryCache map[*ssa.Package]*State
+	entryErr map[*ssa.Package]error
 	pureCache map[string][]Val
 	divCache map[string]Term
 	divAsTerm bool
@@ -555,7 +594,7 @@ func (vc *VC) fresh(T types.Type, name string, st *State) Val {
 	if s, ok := vc.sortOf(T); ok {
 		t := vc.freshTerm(name, s)
 		t.Signed = isSigned(T)
-		st.Assume(vc.typeRange(t, T))
+		st.Fact(vc.typeRange(t, T))
 		return t
 	}
 	switch t := T.Underlying().(type) {
@@ -587,10 +626,10 @@ func (vc *VC) fresh(T types.Type, name string, st *State) Val {
 		cp := vc.freshTerm(name+".cap", vc.intSort(64))
 		cp.Signed = true
 		isnil := vc.freshTerm(name+".isnil", SBool)
-		st.Assume(vc.iLe(vc.idx(0), ln, true))
-		st.Assume(vc.iLe(ln, cp, true))
-		st.Assume(vc.iLe(cp, vc.idxBig(maxLenBound), true))
-		st.Assume(Implies(isnil, Eq(ln, vc.idx(0))))
+		st.Fact(vc.iLe(vc.idx(0), ln, true))
+		st.Fact(vc.iLe(ln, cp, true))
+		st.Fact(vc.iLe(cp, vc.idxBig(maxLenBound), true))
+		st.Fact(Implies(isnil, Eq(ln, vc.idx(0))))
 		return SliceVal{Base: PtrVal{Cell: c}, Off: vc.idx(0), Len: ln, Cap: cp, IsNil: isnil}
 	case *types.Signature:
 		return FuncVal{Sym: "fn!" + sanitize(name), Sig: t}
@@ -761,6 +800,9 @@ func (vc *VC) store(st *State, p PtrVal, nv Val) {
 		panic(execError{"store to unknown cell " + p.Cell.Name})
 	}
 	st.mem[p.Cell] = vc.setPath(old, p.Path, nv)
+	if p.Cell.Kind != "local" {
+		st.extWrites++
+	}
 	if vc.writeLog != nil {
 		vc.writeLog[p.Cell] = true
 	}
@@ -1021,7 +1063,20 @@ func (vc *VC) coneOfInfluence(o *Obligation, infos []declInfo) []Term {
 	}
 	asyms := make([][]string, len(o.Assumes))
 	for i, a := range o.Assumes {
-		asyms[i] = toks(a.E)
+		// close over definitions so abbreviated assumptions keep their real symbols
+		seen := map[string]bool{}
+		var stack []string
+		stack = append(stack, toks(a.E)...)
+		for len(stack) > 0 {
+			x := stack[len(stack)-1]
+			stack = stack[:len(stack)-1]
+			if seen[x] {
+				continue
+			}
+			seen[x] = true
+			asyms[i] = append(asyms[i], x)
+			stack = append(stack, defUses[x]...)
+		}
 	}
 	inc := make([]bool, len(o.Assumes))
 	for changed := true; changed; {
@@ -1058,6 +1113,12 @@ func (vc *VC) coneOfInfluence(o *Obligation, infos []declInfo) []Term {
 // SMT renders the query with only the declarations it (transitively) needs, so that
 // pure arithmetic goals reach the solvers' specialised tactics.
 func (o *Obligation) SMT(produceModels bool) string {
+	return o.smtVariant(produceModels, false)
+}
+
+// smtVariant with dropQuantified omits universally quantified assumptions (a weaker
+// hypothesis set, so unsat still discharges the obligation).
+func (o *Obligation) smtVariant(produceModels bool, dropQuantified bool) string {
 	vc := o.vc
 	infos := vc.declInfos(o.NDecl)
 	used := map[string]bool{}
@@ -1125,6 +1186,9 @@ func (o *Obligation) SMT(produceModels bool) string {
 		}
 	}
 	for _, a := range assumes {
+		if dropQuantified && strings.Contains(a.E, "(forall ") {
+			continue
+		}
 		body.WriteString("(assert ")
 		body.WriteString(a.E)
 		body.WriteString(")\n")
@@ -1137,7 +1201,7 @@ func (o *Obligation) SMT(produceModels bool) string {
 	bs := body.String()
 	logic := "ALL"
 	if !strings.Contains(bs, "forall") && !strings.Contains(bs, "exists") && !strings.Contains(bs, "declare-sort") &&
-		!strings.Contains(bs, "declare-fun") && !strings.Contains(bs, "BitVec") && !strings.Contains(bs, "FloatingPoint") &&
+		!strings.Contains(bs, "declare-fun") && !strings.Contains(bs, "BitVec") && !strings.Contains(bs, "FloatingPoint") && !strings.Contains(bs, "(fp ") && !strings.Contains(bs, "#x") && !strings.Contains(bs, "#b") &&
 		!strings.Contains(bs, "Array") && !strings.Contains(bs, " Int") && !strings.Contains(bs, "to_int") {
 		logic = "QF_NRA"
 	}
